@@ -1,6 +1,8 @@
 """C04 — PCR and PTS/DTS codecs: exact layout, round trip, reserved/marker bits ignored, both PTS decoders agree.
 ops: pcr.rt old v -> [0 [old' [0 ExtractPCR(old')]]] ; pts.rt old v -> [0 [old' gots.ExtractTime(old') pes.ExtractTime(old')]] ;
      pcr.get b, pts.get b, pes.time b (decoders on arbitrary bytes); pcr.put / pts.put (encoders alone)."""
+import sys
+import vlib
 from vlib import Case, hx, unhx, parse_val
 
 PROP = "C04"
@@ -127,7 +129,33 @@ def gen(rng, tier):
         out.append(Case("pcr.rt %s %d" % (hx(old), v), kind="fidelity-u64", decides=False, nontrivial=False))
         v = rng.choice((rng.randrange(PTS_MAX, 1 << 64), (1 << 64) - 1 - rng.randrange(1000), PTS_MAX + rng.randrange(1000)))
         out.append(Case("pts.rt %s %d" % (hx(old), v), kind="fidelity-u64", decides=False, nontrivial=False))
+    crosscheck_spec(out)
     return out
+
+
+def crosscheck_spec(cases):
+    """the bit-string reference used by the oracle below is itself compared, on every value and byte string of this run,
+    with the Coq-extracted ISO field serialisers / value functions of Spec/TimestampSpec.v (ops ser.pcr, ser.ts,
+    spec.pcrval, spec.tsval of modelexec); a disagreement is a fault of the machinery, not a verdict (exit 2)"""
+    req, want = [], []
+    for c in cases:
+        if not c.decides:
+            continue
+        f = c.line.split(" ")
+        if f[0] in ("pcr.rt", "pcr.put"):
+            req.append("ser.pcr " + f[2]); want.append(hx(ref_pcr_bytes(int(f[2]))))
+        elif f[0] in ("pts.rt", "pts.put"):
+            req.append("ser.ts 2 " + f[2]); want.append(hx(ref_pts_bytes(int(f[2]))))
+        elif f[0] == "pcr.get":
+            req.append("spec.pcrval " + f[1]); want.append(str(ref_pcr_decode(unhx(f[1]))))
+        elif f[0] in ("pts.get", "pes.time"):
+            req.append("spec.tsval " + f[1]); want.append(str(ref_pts_decode(unhx(f[1]))))
+    got = vlib.run_model(req)
+    for r, g, w in zip(req, got, want):
+        if g != w:
+            print("ERROR C04 generator: Spec/TimestampSpec.v and the Python reference disagree on `%s`: %s vs %s" % (r, g, w))
+            sys.exit(2)
+    return len(req)
 
 
 def oracle(c, real, model):
